@@ -13,8 +13,7 @@
   Guards, explicit and decidable (the driver evaluates them on every generated case):
   `IdsOK L R` — the two lists consist of pairwise distinct nodes; `JobsOK L R (jobs …)` — the
   certain jobs pair no individual twice.  `jobsOK_of_guards` derives the latter from the inputs:
-  pointers unique per side (`PtrsOK`) and no right individual a unique-identifier candidate of
-  two left individuals (`CandidatesDisjoint`).
+  pointers unique per side (`PtrsOK`), nothing else.
 
   Two further sources of non-determinism / history are quantified over, not assumed away: the
   resolution `ch` of every `ByUniqueIdentifiers(…)[0]` (sync.Map order) and the sent sets `s0`
@@ -30,13 +29,6 @@ variable (L R : List Person) (scoreT scoreF : Nat → Nat → Rat) (prefer minW 
    when `Compare` starts (empty when fresh, the leftovers of the previous call when reused). -/
 variable (ch : Person → Option Person) (s0 : Sent)
 
-/-
-  Full statement (false of the code, defect 11): `each_right_once` without `JobsOK`.
-  Two left individuals that carry the unique identifier of one right individual are both paired
-  with it (createUniqueJobs never checks whether the right individual is taken): see
-  `dup_uid_counterexample`.
--/
-
 /-- every left individual appears in exactly one result, whatever the order of arrival -/
 theorem each_left_once (arrival : List Job) (hp : arrival.Perm (jobsFrom ch s0 L R scoreT scoreF prefer))
     (hids : IdsOK L R) (hok : JobsOK L R (jobsFrom ch s0 L R scoreT scoreF prefer))
@@ -51,30 +43,25 @@ theorem each_right_once (arrival : List Job) (hp : arrival.Perm (jobsFrom ch s0 
     rightCount x (winners L R minW arrival) = 1 :=
   right_once' L R minW arrival hids (jobsOK_perm hp hok) x hx
 
-/-- the guard on the jobs follows from guards on the inputs — distinct nodes, pointers unique per
-    side, no right individual a unique-identifier candidate of two left individuals — for every
-    admissible resolution of the choices and every initial sent sets -/
-theorem jobsOK_of_guards (hadm : Admissible R ch) (hids : IdsOK L R) (hp : PtrsOK L R)
-    (hd : CandidatesDisjoint L R) : JobsOK L R (jobsFrom ch s0 L R scoreT scoreF prefer) :=
-  jobsOK_from L R scoreT scoreF prefer ch hadm.choiceOK s0 hids hp (choice_injective L R ch hadm hids hd)
-
-/-- for the resolution "identifiers in document order" (what the sequential model run uses) it
-    is enough that this one resolution selects no right individual twice -/
-theorem jobsOK_sequential (hids : IdsOK L R) (hp : PtrsOK L R) (hu : UniqueTargetsOK L R) :
-    JobsOK L R (jobs L R scoreT scoreF prefer) :=
-  jobsOK_of_guards' L R scoreT scoreF prefer hids hp hu
+/-- the guard on the jobs follows from guards on the inputs — distinct nodes and pointers unique
+    per side — for every admissible resolution of the choices and every initial sent sets.  (Before
+    the fix "a right individual is matched by unique identifier only once" this also needed that
+    no right individual was a unique-identifier candidate of two left individuals.) -/
+theorem jobsOK_of_guards (hadm : Admissible R ch) (hids : IdsOK L R) (hp : PtrsOK L R) :
+    JobsOK L R (jobsFrom ch s0 L R scoreT scoreF prefer) :=
+  jobsOK_from L R scoreT scoreF prefer ch hadm.choiceOK s0 hids hp
 
 /-- the matching is one-to-one on every schedule, for every resolution of the unique-identifier
     choices and every history of the options value, stated on the inputs alone -/
 theorem valid_matching (arrival : List Job)
     (hperm : arrival.Perm (jobsFrom ch s0 L R scoreT scoreF prefer)) (hadm : Admissible R ch)
-    (hids : IdsOK L R) (hp : PtrsOK L R) (hd : CandidatesDisjoint L R) :
+    (hids : IdsOK L R) (hp : PtrsOK L R) :
     (∀ x ∈ L.map (·.id), leftCount x (winners L R minW arrival) = 1) ∧
     (∀ x ∈ R.map (·.id), rightCount x (winners L R minW arrival) = 1) :=
   ⟨fun x hx => each_left_once L R scoreT scoreF prefer minW ch s0 arrival hperm hids
-      (jobsOK_of_guards L R scoreT scoreF prefer ch s0 hadm hids hp hd) x hx,
+      (jobsOK_of_guards L R scoreT scoreF prefer ch s0 hadm hids hp) x hx,
    fun x hx => each_right_once L R scoreT scoreF prefer minW ch s0 arrival hperm hids
-      (jobsOK_of_guards L R scoreT scoreF prefer ch s0 hadm hids hp hd) x hx⟩
+      (jobsOK_of_guards L R scoreT scoreF prefer ch s0 hadm hids hp) x hx⟩
 
 /-- no result is empty on both sides, and no result mentions a node of neither list (needs no
     guard) -/
@@ -129,17 +116,18 @@ theorem jobs_justified (hadm : Admissible R ch) (j : Job)
     Justified L R scoreT scoreF prefer j :=
   jobsFrom_justified L R scoreT scoreF prefer ch hadm.choiceOK s0 j hj
 
-/-! ## the guard cannot be dropped (defect 11) -/
+/-! ## regression witness of defect 11 -/
 
 def dupL : List Person := [⟨0, [73, 49], [[1]]⟩, ⟨1, [73, 50], [[1]]⟩]
 def dupR : List Person := [⟨10, [80, 49], [[1]]⟩]
 
-/-- two left individuals with the unique identifier of one right individual: the right
-    individual is in two results, in the sequential run already -/
-theorem dup_uid_counterexample :
-    IdsOK dupL dupR ∧ PtrsOK dupL dupR ∧ ¬ UniqueTargetsOK dupL dupR ∧ ¬ CandidatesDisjoint dupL dupR ∧
-    ¬ JobsOK dupL dupR (jobs dupL dupR (fun _ _ => 0) (fun _ _ => 0) 0) ∧
-    rightCount 10 (compare dupL dupR (fun _ _ => 0) (fun _ _ => 0) 0 0) = 2 := by
+/-- two left individuals with the unique identifier of one right individual: the first one keeps
+    the match, the second one is left over, the right individual is in one result (it was in two
+    before the fix) -/
+theorem dup_uid_regression :
+    IdsOK dupL dupR ∧ PtrsOK dupL dupR ∧
+    compare dupL dupR (fun _ _ => 0) (fun _ _ => 0) 0 1 = [(some 0, some 10), (some 1, none)] ∧
+    rightCount 10 (compare dupL dupR (fun _ _ => 0) (fun _ _ => 0) 0 1) = 1 := by
   decide +kernel
 
 /-! ## Non-vacuity (tests on literals) -/
@@ -150,7 +138,7 @@ def exF : Nat → Nat → Rat := fun l r => if l = 2 ∧ r = 10 then 9 / 10 else
 
 -- one unique-id job (0-12), one pointer job (1-11), a remaining matrix with a winner (2-10):
 -- the guards hold and there are jobs of all three kinds
-example : IdsOK exL exR ∧ PtrsOK exL exR ∧ UniqueTargetsOK exL exR ∧ CandidatesDisjoint exL exR ∧
+example : IdsOK exL exR ∧ PtrsOK exL exR ∧
     JobsOK exL exR (jobs exL exR (fun _ _ => 1) exF (1 / 2)) := by decide +kernel
 example : compare exL exR (fun _ _ => 1) exF (1 / 2) (1 / 2) =
     [(some 0, some 12), (some 1, some 11), (some 2, some 10), (none, some 13)] := by decide +kernel
@@ -164,16 +152,17 @@ example : NoScoreTies (1 / 2) (jobs exL exR (fun _ _ => 1) exF (1 / 2)) := by de
 -- hold, and both resolutions give a valid matching (0-12 resp. 0-13)
 def amL : List Person := [⟨0, [73, 49], [[1], [2]]⟩, ⟨1, [73, 50], []⟩]
 def amR : List Person := [⟨12, [80, 51], [[1]]⟩, ⟨13, [80, 52], [[2]]⟩]
-example : IdsOK amL amR ∧ PtrsOK amL amR ∧ CandidatesDisjoint amL amR ∧
+example : IdsOK amL amR ∧ PtrsOK amL amR ∧
     (uniqueCands amR amL[0]).map (·.id) = [12, 13] := by decide +kernel
 example : winners amL amR 1 (jobsFrom (fun a => if a.id = 0 then some amR[1] else none) ⟨[], []⟩ amL amR
       (fun _ _ => 0) (fun _ _ => 0) 1) = [(some 0, some 13), (some 1, none), (none, some 12)] := by
   decide +kernel
--- a second Compare with the same options value: the pointer pair 1-11 of the first call is not
--- found again (both pointers are still marked as sent), the result is still a valid matching
+-- a second Compare with the same options value: the certain pairs 0-12 and 1-11 of the first call
+-- are not found again (their pointers are still marked as sent), the result is still a valid
+-- matching
 example : winners exL exR (1 / 2) (jobsFrom (uniqueTarget exR)
       (sentAfter (uniqueTarget exR) ⟨[], []⟩ exL exR (fun _ _ => 1) (1 / 2)) exL exR (fun _ _ => 1) exF (1 / 2)) =
-    [(some 0, some 12), (some 2, some 10), (some 1, none), (none, some 11), (none, some 13)] := by
+    [(some 2, some 10), (some 0, none), (some 1, none), (none, some 11), (none, some 12), (none, some 13)] := by
   decide +kernel
 
 end Gedcom.C11
